@@ -452,6 +452,14 @@ class Machine:
         self.track(res, "returned:transform", site, "result")
 
     def _c_set_condition(self, op, rs, site):
+        try:
+            self._set_condition(op, rs, site)
+        except ValueError:
+            # e.g. number of measurement errors left inconsistent by an earlier refused call:
+            # not an aliasing matter, the ledger is checked all the same
+            self.ctx.probe("set_condition_refused")
+
+    def _set_condition(self, op, rs, site):
         kr = self.objs[op["target"]]
         n = kr.cond_no
         lay = op["layout"]
@@ -928,7 +936,9 @@ class Machine:
                 # leave the shared kriging objects usable for the rest of the history
                 for name in ("krige", "cond.krige"):
                     try:
-                        self.objs[name].set_condition(self.cond_pos0.copy(), self.cond_val0.copy())
+                        self.objs[name].set_condition(cond_pos=self.cond_pos0.copy(),
+                                                      cond_val=self.cond_val0.copy(),
+                                                      cond_err="nugget")
                     except refused:
                         pass
 
